@@ -65,15 +65,15 @@ type Race struct {
 }
 
 type raceDet struct {
-	words   map[uintptr][]*raceLoc // records per 8-byte word, by byte range (maps: the map's identity, tagged)
-	keep    []any                // the objects accessed so far: alive, hence their addresses are not reused
-	locks   map[any]*vclock
-	pools   map[any]*vclock
-	hand    vclock // what the harness's own hand-overs have published
-	Races   []Race
-	seen    map[string]bool
-	SiteFn  func(site int) string
-	Accs    int
+	words  map[uintptr][]*raceLoc // records per 8-byte word, by byte range (maps: the map's identity, tagged)
+	keep   []any                  // the objects accessed so far: alive, hence their addresses are not reused
+	locks  map[any]*vclock
+	pools  map[any]*vclock
+	hand   vclock // what the harness's own hand-overs have published
+	Races  []Race
+	seen   map[string]bool
+	SiteFn func(site int) string
+	Accs   int
 }
 
 func newRaceDet() *raceDet {
